@@ -31,12 +31,40 @@ Definition empty_view : wview := {| wv_funcs := []; wv_classes := []; wv_registe
     a subclass given invariants without DBC while an ancestor has invariants *)
 Definition has_enabled_inv (d : cdecl) : bool := existsb id_enabled (cd_invs d).
 
-Fixpoint class_decls_ (ops : list defop) : list cdecl :=
-  match ops with
-  | [] => []
-  | DefClass d :: r => d :: class_decls_ r
-  | DefFunction _ :: r => class_decls_ r
+(** the declarations of the class statements of a history; a later [K.name = decorator(K.name)] counts as one more
+    decorator on that member of that class *)
+Definition redecorate_decl (d : cdecl) (name : string) (dc : deco) : cdecl :=
+  {| cd_bases := cd_bases d; cd_dbc := cd_dbc d;
+     cd_members := map (fun m => if String.eqb (md_name m) name
+                                    && match md_kind m with MPlain => true | _ => false end
+                                 then {| md_name := md_name m; md_kind := md_kind m; md_async := md_async m;
+                                         md_sig := md_sig m; md_decos := md_decos m ++ [dc];
+                                         md_inherit := md_inherit m |}
+                                 else m) (cd_members d);
+     cd_invs := cd_invs d |}.
+
+Fixpoint update_nth {A} (l : list A) (i : nat) (f : A -> A) : list A :=
+  match l, i with
+  | [], _ => []
+  | x :: r, 0 => f x :: r
+  | x :: r, S j => x :: update_nth r j f
   end.
+
+Fixpoint class_decls_acc (ops : list defop) (errs : list (option string)) (acc : list cdecl) : list cdecl :=
+  match ops with
+  | [] => acc
+  | DefClass d :: r => class_decls_acc r (tl errs) (acc ++ [d])
+  | DefFunction _ :: r => class_decls_acc r (tl errs) acc
+  | DefRedecorate k name dc :: r =>
+      class_decls_acc r (tl errs)
+                      (match errs with
+                       | Some _ :: _ => acc           (* the decoration raised: nothing was added *)
+                       | _ => update_nth acc k (fun d => redecorate_decl d name dc)
+                       end)
+  end.
+Definition class_decls_ (ops : list defop) : list cdecl := class_decls_acc ops [] [].
+(** with the outcomes of the definitions: a decoration that raised adds nothing *)
+Definition class_decls_h (ops : list defop) (errs : list (option string)) : list cdecl := class_decls_acc ops errs [].
 
 (** the property speaks of classes on the contract-inheriting base: a history in which a class that is
     *not* created through DBCMeta is given invariants although an ancestor has invariants is outside
@@ -57,8 +85,27 @@ Definition outside_C17 (c : ecase) (wm : world) : bool :=
                 end)
           (combine (seq 0 (List.length decls)) decls).
 
+(** a later decoration of a member of class [k] changes [k] and the classes below it, and nothing else *)
+Definition blank_class : cview :=
+  {| cv_members := []; cv_invs := []; cv_invs_call := []; cv_invs_set := []; cv_owners := [] |}.
+Definition blank_below (wm : world) (k : nat) (v : wview) : wview :=
+  {| wv_funcs := wv_funcs v;
+     wv_classes := map (fun jc => if nat_in k (mro_of wm (fst jc)) then blank_class else snd jc)
+                       (combine (seq 0 (List.length (wv_classes v))) (wv_classes v));
+     wv_registered := wv_registered v |}.
+
+Fixpoint frames_ok_ops (wm : world) (prev : wview) (ops : list defop) (h : list (option string * wview)) : bool :=
+  match ops, h with
+  | op :: orest, (_, v) :: r =>
+      (match op with
+       | DefRedecorate k _ _ => frame_ok (blank_below wm k prev) (blank_below wm k v)
+       | _ => frame_ok prev v
+       end) && frames_ok_ops wm v orest r
+  | _, _ => true
+  end.
+
 Definition spec_C17 (c : ecase) (wm : world) (h : list (option string * wview)) : bool :=
-  outside_C17 c wm || frames_ok empty_view h.
+  outside_C17 c wm || frames_ok_ops wm empty_view (e_ops c) h.
 
 (** the hypothesis of the frame theorem for class statements ([OwnLists] in Proofs/ElabClassFrame.v),
     evaluated on a world: every class created through the meta-class shows only lists of its own *)
@@ -78,12 +125,7 @@ Definition own_lists_everywhere (w : world) : bool :=
                     end) (seq 0 (List.length (w_classes w))).
 
 (** ** declarations of a history, per class index (a failed class statement keeps its slot) *)
-Fixpoint class_decls (ops : list defop) : list cdecl :=
-  match ops with
-  | [] => []
-  | DefClass d :: r => d :: class_decls r
-  | DefFunction _ :: r => class_decls r
-  end.
+Definition class_decls (ops : list defop) : list cdecl := class_decls_acc ops [] [].
 
 Definition acc_matches (acc k : mkind) : bool :=
   match acc, k with
@@ -276,8 +318,8 @@ Definition verdict_code (v : c04_verdict) : Z :=
   match v with V_ok => 0%Z | V_known 0 => 1%Z | V_known _ => 3%Z | V_bad => 2%Z end.
 
 (** C04 / C18 on the final view of a history: 0 = as declared, 1 = only known-finding classes differ, 2 = violated *)
-Definition spec_C04_code (c : ecase) (w_model : world) (final : wview) : Z :=
-  let decls := class_decls (e_ops c) in
+Definition spec_C04_code_h (errs : list (option string)) (c : ecase) (w_model : world) (final : wview) : Z :=
+  let decls := class_decls_h (e_ops c) errs in
   let mro := fun k => mro_of w_model k in
   let all_meta := fun k => forallb (fun j => match get_class w_model j with Some co => co_meta co | None => false end) (mro k) in
   verdict_code
@@ -287,10 +329,20 @@ Definition spec_C04_code (c : ecase) (w_model : world) (final : wview) : Z :=
                if negb (is_live w_model k) then V_ok else
                (* the property is about hierarchies built on the contract-inheriting base class/metaclass *)
                if negb (all_meta k) then V_ok else
-               worst (check_members decls mro k (e_names c) (cv_members (snd kc)))
+               (* a precondition added to a member after its class was created lands in the first group - with
+                  inherited groups that is unsupported (the library asserts groups are merged by the meta-class only) *)
+               let late := fun name => existsb (fun op => match op with
+                                                          | DefRedecorate j n (DRequire _ true) =>
+                                                              String.eqb n name && nat_in j (mro k)
+                                                          | _ => false end) (e_ops c) in
+               worst (check_members decls mro k (e_names c)
+                                    (map (fun nm => if late (fst nm) then VAbsent else snd nm)
+                                         (combine (e_names c) (cv_members (snd kc)))))
                      (if zset_eqb (cv_invs (snd kc)) (declared_invs decls mro k) then V_ok else V_bad))
             (combine (seq 0 (List.length (wv_classes final))) (wv_classes final)))
        V_ok).
+
+Definition spec_C04_code (c : ecase) (w_model : world) (final : wview) : Z := spec_C04_code_h [] c w_model final.
 
 (** ** C14: one checker per decorator stack; every foreign decorator is still on the chain, in order *)
 Definition count_role (p : frole -> bool) (l : list frole) : nat := List.length (filter p l).
@@ -418,9 +470,14 @@ Fixpoint spec_errors (w : world) (decls : list cdecl) (ops : list defop) (h : li
               | Some mro => error_ok (class_misuses decls w d mro meta) err
               | None => match err with Some _ => true | None => false end     (* inconsistent hierarchy: Python's TypeError *)
               end
+          | DefRedecorate _ _ _ => true         (* the decorations generated are valid ones; nothing is claimed about their errors *)
           end in
       let w' := match step_def w op with Ok w1 => w1 | Err _ => fail_def w op end in
-      let decls' := match op with DefClass d => decls ++ [d] | _ => decls end in
+      let decls' := match op with
+                    | DefClass d => decls ++ [d]
+                    | DefRedecorate k name dc => update_nth decls k (fun d => redecorate_decl d name dc)
+                    | DefFunction _ => decls
+                    end in
       ok && spec_errors w' decls' rest hrest
   | _, _ => false
   end.
@@ -608,8 +665,8 @@ End Order.
 
 Definition is_prefix_of_bases (shown expected : list Z) : bool := zl_eqb shown expected.
 
-Definition spec_C16_order (c : ecase) (wm : world) (final : wview) : bool :=
-  let decls := class_decls (e_ops c) in
+Definition spec_C16_order (errs : list (option string)) (c : ecase) (wm : world) (final : wview) : bool :=
+  let decls := class_decls_h (e_ops c) errs in
   let mro := fun k => mro_of wm k in
   let all_meta := fun k => forallb (fun j => match get_class wm j with Some co => co_meta co | None => false end) (mro k) in
   forallb (fun kc =>
